@@ -21,12 +21,56 @@ DECIDED = [
     "DOM-5 Validation(doc) -> is_error loop -> raise ParserException dominates every file creating effect of ODMLWriter.write_file, for every backend",
     "OWN-4 fileio.save and the format converter's 'odml' branch reach the file system only through ODMLWriter.write_file",
     "ORDER-1 at every write-mode open() of the package the content is computed before the file is opened",
+    "ENC-2 the rendered JSON / YAML text is pure ASCII, so writing it to a text file opened with the locale's encoding cannot fail after the open",
     "ORDER-6 in ODMLWriter.write_file nothing that can raise (not even warnings.warn) runs after a file was written",
     "RANK-0 ValidationError.is_error compares the rank with the error label",
     "REG-1 / RANK-1 (shared with C08) every documented error rule is registered for its object kinds and constructs its issues with rank error",
+    "REG-2 the handler registry only grows: no method replaces or drops the handlers registered for an object kind",
     "ACC-1 the duplicate-id error rule threads one id map through the whole traversal (shared with C08)",
 ]
 NOT_DECIDED = ["I/O faults of write() itself (disk full, permission)", "which documents the validation rules flag (C08)"]
+
+
+SHRINKING = ("pop", "popitem", "clear", "remove", "discard", "update", "difference_update", "intersection_update", "__delitem__",
+             "__setitem__")
+
+
+def registry_only_grows(prog, rep, rule="REG-2"):
+    """(shared with C19) the table Validation._handlers - shared by every validation unless reset=True re-binds it in the
+    constructor - is changed by `setdefault(kind, set()).add(handler)` only: an entry is never assigned, deleted or emptied."""
+    rep.rule(rule, "in odml.validation every write that reaches `_handlers` is <registry>.setdefault(<kind>, set()).add(<handler>) or the "
+                   "re-binding `self._handlers = {}` in Validation.__init__; no `_handlers[kind] = ...`, del, pop, clear, remove, discard, "
+                   "update on the registry or on one of its entries")
+    vmod = prog.module_of("validation")
+    n = 0
+    n_bad = 0
+    for f in prog.all_functions():
+        if f.module is not vmod:
+            continue
+        for node in ast.walk(f.node):
+            bad = None
+            if isinstance(node, (ast.Assign, ast.AugAssign, ast.Delete)):
+                tgts = node.targets if not isinstance(node, ast.AugAssign) else [node.target]
+                for t in tgts:
+                    if isinstance(t, ast.Subscript) and "_handlers" in unparse(t.value):
+                        bad = "`%s`" % unparse(node).split("\n")[0][:70]
+                    if isinstance(t, ast.Attribute) and t.attr == "_handlers":
+                        n += 1
+                        fresh = isinstance(node, ast.Assign) and isinstance(node.value, ast.Dict) and not node.value.keys
+                        if not (f.name == "__init__" and fresh):
+                            bad = "`%s`" % unparse(node).split("\n")[0][:70]
+            if isinstance(node, ast.Call) and isinstance(node.func, ast.Attribute) and "_handlers" in unparse(node.func.value):
+                n += 1
+                if node.func.attr in SHRINKING:
+                    bad = "`%s`" % unparse(node)[:70]
+            if bad:
+                n_bad += 1
+                rep.fail(rule, "%s|%s" % (f.short, bad), "%s changes the handler registry with %s: handlers registered before (the default error "
+                         "rules, when the registry is the shared one) are replaced or dropped" % (f.short, bad), where(f, node),
+                         witness="doc.validate().register_custom_handler('section', rule); afterwards a Section without type is saved")
+    rep.floor(rule, n, 3, "uses of the handler registry")
+    if not n_bad:
+        rep.ok(rule, "the handler registry is only extended", "%d uses inspected" % n, vmod.path)
 
 
 def fs_write_nodes(g, func):
@@ -139,6 +183,23 @@ def run(prog, rep):
     n = compute_before_open(prog, rep, funcs, "ORDER-1", floor=6)
     rep.extra["write_mode_opens"] = n
 
+    # ----------------------------------------------------------------- ENC-2
+    rep.rule("ENC-2", "ODMLWriter.to_string renders with json.dumps (ensure_ascii left at its default True) and yaml.dump (allow_unicode "
+                      "left at its default False): every non-ASCII character is escaped, so <file>.write(text) cannot raise "
+                      "UnicodeEncodeError after open(filename, 'w') truncated the target")
+    tsf = prog.func("tools.odmlparser.ODMLWriter.to_string")
+    rep.saw_function(tsf)
+    widen = {"ensure_ascii": False, "allow_unicode": True}
+    dumps = [c for h in private_closure(tsf) for c in calls_in(h.node)
+             if canonical_name(prog, h, c.func) in ("json.dumps", "json.dump", "yaml.dump", "yaml.safe_dump")]
+    for c in dumps:
+        bad = [k.arg for k in c.keywords if k.arg in widen and not (isinstance(k.value, ast.Constant) and k.value.value is (not widen[k.arg]))]
+        rep.check(not bad, "ENC-2", "%s output is ASCII" % unparse(c.func), "default escaping",
+                  "%s is called with %s: the rendered text can contain characters (lone surrogates, anything outside the locale's "
+                  "charset) that the output file cannot encode; write() then fails after the target was truncated" % (unparse(c.func), bad),
+                  where(tsf, c), witness="save a document whose text holds os.fsdecode() of a non-UTF-8 file name as JSON: 0 byte file left")
+    rep.floor("ENC-2", len(dumps), 2, "serialiser calls in ODMLWriter.to_string")
+
     # --------------------------------------------------------------- ORDER-6
     rep.rule("ORDER-6", "in ODMLWriter.write_file no call (other than the writes themselves) is reachable after a "
                         "file creating effect: reporting warnings, rendering and argument handling all precede it")
@@ -175,6 +236,7 @@ def run(prog, rep):
     acc1_rule(prog, rep, analysis.get(prog).s)
     # the error rules are what blocks a save: they must be registered for the kinds they are documented for, with rank error
     tab2_rule(prog, rep, analysis.get(prog).k, "REG-1", only_rank="error")
+    registry_only_grows(prog, rep, "REG-2")
     tab3_rule(prog, rep, "RANK-1", only_rank="error")
 
     # ---------------------------------------------------------------- RANK-0
